@@ -57,7 +57,9 @@ fn walk_node_enter(analyzer: &mut DeclAnalyzer, node: LuaAst) {
             stats::analyze_assign_stat(analyzer, stat);
         }
         LuaAst::LuaForStat(stat) => {
-            analyzer.create_scope(stat.get_range(), LuaScopeKind::Normal);
+            // Like the generic `for`, the loop variable is only visible in the body:
+            // the start/stop/step expressions are evaluated in the enclosing scope.
+            analyzer.create_scope(stat.get_range(), LuaScopeKind::ForRange);
             stats::analyze_for_stat(analyzer, stat);
         }
         LuaAst::LuaForRangeStat(stat) => {
